@@ -630,6 +630,12 @@ crate::harnesses! {
     #[kani::stub(std::hash::RandomState::new, crate::stub_random_state)]
     cx_resolve_var_d0 / 18 => resolve_var_nested::<_, 0, 3, 0, 0, 0>;
     #[kani::stub(std::hash::RandomState::new, crate::stub_random_state)]
+    cx_resolve_var_d0_n2 / 18 => resolve_var_nested::<_, 0, 2, 0, 0, 0>;
+    #[kani::stub(std::hash::RandomState::new, crate::stub_random_state)]
+    cx_resolve_var_d1_n20 / 18 => resolve_var_nested::<_, 1, 2, 0, 0, 0>;
+    #[kani::stub(std::hash::RandomState::new, crate::stub_random_state)]
+    cx_resolve_var_d1_n21 / 18 => resolve_var_nested::<_, 1, 2, 1, 0, 0>;
+    #[kani::stub(std::hash::RandomState::new, crate::stub_random_state)]
     cx_resolve_var_d1 / 18 => resolve_var_nested::<_, 1, 3, 1, 0, 1>;
     #[kani::stub(std::hash::RandomState::new, crate::stub_random_state)]
     cx_resolve_var_d1b / 18 => resolve_var_nested::<_, 1, 2, 2, 0, 2>;
